@@ -127,7 +127,7 @@ func (s *SelectStatement) ToStreamConfig() (*types.Config, string, error) {
 	// Check if there are aggregation functions
 	hasAggregation := false
 	for _, field := range otherFields {
-		if isAggregationFunction(field.Expression) {
+		if isAggregationFunction(stripEnclosingParens(field.Expression)) {
 			hasAggregation = true
 			break
 		}
@@ -807,6 +807,39 @@ func groupKeyIsScalarFunctionExpr(expr string) bool {
 		return false
 	}
 	return true
+}
+
+// stripEnclosingParens removes parentheses that enclose the whole expression:
+// "((sum(v)))" -> "sum(v)", while "(a) + (b)" and "(sum(v)) + 0" stay as they are.
+func stripEnclosingParens(expr string) string {
+	for {
+		trimmed := strings.TrimSpace(expr)
+		if !strings.HasPrefix(trimmed, "(") || !strings.HasSuffix(trimmed, ")") {
+			return expr
+		}
+		// Find the parenthesis closing the first one, skipping string literals
+		depth, closeAt := 0, -1
+		for i := 0; i < len(trimmed) && closeAt < 0; i++ {
+			switch c := trimmed[i]; c {
+			case '\'', '"', '`':
+				i++
+				for i < len(trimmed) && trimmed[i] != c {
+					i++
+				}
+			case '(':
+				depth++
+			case ')':
+				depth--
+				if depth == 0 {
+					closeAt = i
+				}
+			}
+		}
+		if closeAt != len(trimmed)-1 || strings.TrimSpace(trimmed[1:closeAt]) == "" {
+			return expr
+		}
+		expr = trimmed[1:closeAt]
+	}
 }
 
 // Check if expression is an aggregation function
@@ -1539,6 +1572,11 @@ func buildSelectFieldsWithExpressions(fields []Field) (
 				alias = f.Expression
 			}
 		}
+
+		// Parentheses around the whole item, (sum(v)) AS x, do not change what it
+		// is: without them it is recognised as the call or expression it encloses
+		// instead of being left out of the result. The output name keeps them.
+		f.Expression = stripEnclosingParens(f.Expression)
 
 		// Check if this is a complex aggregation expression
 		if isComplexAggregationExpression(f.Expression) {
